@@ -2,6 +2,7 @@
 #![allow(clippy::all)]
 #![allow(dead_code)]
 
+pub mod capi;
 pub mod checks;
 pub mod gen;
 pub mod model;
